@@ -45,6 +45,26 @@ partial def parseAExpr : Sexp → Option AExpr
   | .list [.atom "bin", .atom op, a, b] => do some (.bin (← binOpOf op) (← parseAExpr a) (← parseAExpr b))
   | _ => none
 
+def parseSec2 : Sexp → Option Sec2
+  | .list [.atom "sec2", a, lo1, hi1, st1, lo2, hi2, st2] => do
+      some ⟨← a.nat?, ← parseExpr lo1, ← parseExpr hi1, ← parseExpr st1, ← parseExpr lo2, ← parseExpr hi2, ← parseExpr st2⟩
+  | _ => none
+
+partial def parseAExpr2 : Sexp → Option AExpr2
+  | .list [.atom "sc", e] => do some (.sc (← parseExpr e))
+  | .list [.atom "asec2", s] => do some (.sec (← parseSec2 s))
+  | .list [.atom "un", .atom op, e] => do some (.un (← unOpOf op) (← parseAExpr2 e))
+  | .list [.atom "bin", .atom op, a, b] => do some (.bin (← binOpOf op) (← parseAExpr2 a) (← parseAExpr2 b))
+  | _ => none
+
+def showFix : Fix → String
+  | .r1 => "(r1)"
+  | .row j => s!"(row {showExpr j})"
+  | .col i => s!"(col {showExpr i})"
+
+def showSec (s : Sec) : String :=
+  s!"(sec {s.arr} {showFix s.fix} {showExpr s.lo} {showExpr s.hi} {showExpr s.st})"
+
 def parseTgt : Sexp → Option Tgt
   | .list [.atom "sc", x] => do some (.sc (← x.nat?))
   | .list [.atom "e1", a, i] => do some (.e1 (← a.nat?) (← parseExpr i))
@@ -105,6 +125,16 @@ def handle (s : Sexp) : String :=
     (do some (showStmt (dot2code (← res.nat?) (← i.nat?) (← parseVec v1) (← parseVec v2) (← parseAsg asg)))).getD bad
   | .list [.atom "matvec", i, j, r, a, x] =>
     (do some (showStmt (matvecCode (← i.nat?) (← j.nat?) (← parseVec r) (← parseMat a) (← parseVec x)))).getD bad
+  | .list [.atom "aa2", idx2, idx1, lhs, rhs] =>
+    (do let a : AAIn2 := ⟨← parseSec2 lhs, ← parseAExpr2 rhs⟩
+        some (showRes (transAA2 (← idx2.nat?) (← idx1.nat?) a))).getD bad
+  | .list [.atom "dots", res, i, s1, s2, asg] =>
+    (do some (showStmt (dot2codeS (← res.nat?) (← i.nat?) (← parseSec s1) (← parseSec s2) (← parseAsg asg)))).getD bad
+  | .list [.atom "matmat", i, j, ii, r, a, b] =>
+    (do some (showStmt (matmatCode (← i.nat?) (← j.nat?) (← ii.nat?) (← parseMat r) (← parseMat a) (← parseMat b)))).getD bad
+  | .list (.atom "ref2ranges" :: vs) =>
+    (do let vs ← vs.mapM parseVec
+        some (showList (fun v => showSec (ref2range v)) vs)).getD bad
   | .list [.atom "acc", idx, arr, index, rhs, hole] =>
     (do let a : AccIn := ⟨← arr.nat?, ← parseExpr index, ← parseExpr rhs, ← hole.nat?⟩
         some s!"({showStmt (applyAcc (← idx.nat?) a)} {showStmt (accOrig a)})").getD bad
